@@ -96,7 +96,8 @@ Record fcase := mkfcase {
   fc_free : list Z; fc_fixed : list Z;
   fc_solve : option solve_rec;
   fc_final : list lit2;
-  fc_defect : list lit; fc_rot : list lit; fc_singuls : list lit
+  fc_defect : list lit; fc_rot : list lit; fc_singuls : list lit;
+  fc_prev : list lit      (* what the singularity attribute held before this flagging (zeros on a fresh mesh) *)
 }.
 
 Definition tr_obs (l : list (Z * Z * lit2)) (a b : Z) : option (cx float) :=
@@ -173,7 +174,8 @@ Definition check_faces (c : fcase) : bool :=
   (* singularities *)
   (let defect := fun v => znth (map lit_f (fc_defect c)) v PrimFloat.zero in
    let rot := fun e => znth (map lit_f (fc_rot c)) e PrimFloat.zero in
-   all2 (fun v o => fcl (singul Fops defect E rot v) (lit_f o)) (zrange (zlen V)) (fc_singuls c)).
+   let old := fun v => znth (map lit_f (fc_prev c)) v PrimFloat.zero in
+   all2 (fun v o => fcl (singul_stored Fops old defect E rot v) (lit_f o)) (zrange (zlen V)) (fc_singuls c)).
 
 (* ================================================================== vertices *)
 Record vcase := mkvcase {
